@@ -1143,6 +1143,11 @@ class SVG:
         self._update_etree()
 
         for el in self.xpath("//svg:symbol[not(@id)]"):
+            # gradients can be referenced from anywhere, they outlive the symbol
+            for gradient in self.xpath(
+                ".//svg:linearGradient | .//svg:radialGradient", el
+            ):
+                el.addprevious(gradient)
             el.getparent().remove(el)
 
         return self
